@@ -14,7 +14,7 @@ func spaces(thorough bool) []*space {
 	if !thorough {
 		fk := [3][]string{1: {"Bf", "Bd", "Af", "$gB", "$sB"}, 2: {"Cf", "Af", "$gC"}}
 		return []*space{
-			{Name: "full3", Levels: 3, TM: "!#~", F: 1, Full: true, Kinds: fk, Block: true},
+			{Name: "full3", Levels: 3, TM: "!#~", F: 1, FreeLit: true, Full: true, Kinds: fk, Block: true},
 			{Name: "ops2", Levels: 2, NT: "ENPDXF", TM: "!#~", B: 2, G: 2, F: 1, Kinds: qk},
 			{Name: "ops3", Levels: 3, NT: "E", TM: "!#", B: 2, G: 2, F: 1, Kinds: qk},
 			{Name: "fee3", Levels: 3, NT: "F", TM: "!", B: 2, G: 3, F: 1, Kinds: [3][]string{1: {"Bf"}, 2: {"Cf"}}},
